@@ -73,6 +73,7 @@ type world struct {
 	mu      sync.Mutex
 	connOf  map[int64]int
 	dead    map[int]bool // dials refused
+	diedAt  map[int]int64 // client -> logical time at which the driver closed it / dropped its connections (absent = alive throughout)
 	loads   []*load
 	gets    []*getRes
 	stored  map[string]map[string]int64 // key -> value -> stamp when the driver stored it
@@ -108,6 +109,7 @@ func oneHistory(run *mon.Run, t *testing.T, idx int, p params) {
 	stop := guard(name)
 	dl, stacks := drv.Bubble(t, func() { fp, nontrivial = history(run, name, p) })
 	stop()
+
 	if dl != "" {
 		frames := drv.RueidisFrames(stacks)
 		run.Violation("hang-or-leak", p.cfg()+"|"+strings.Join(frames, ";"), map[string]any{"case": name, "params": fmt.Sprintf("%+v", p), "synctest": dl, "rueidis_frames": frames, "stacks": drv.Tail(stacks, 16000)})
@@ -122,7 +124,7 @@ func history(run *mon.Run, name string, p params) (string, bool) {
 	srv := fakeredis.New(fakeredis.Options{Seed: p.seed}, addr)
 	defer srv.Close()
 	node := srv.Node(addr)
-	w := &world{run: run, srv: srv, name: name, cfg: p.cfg(), connOf: map[int64]int{}, dead: map[int]bool{}, stored: map[string]map[string]int64{}}
+	w := &world{run: run, srv: srv, name: name, cfg: p.cfg(), connOf: map[int64]int{}, dead: map[int]bool{}, diedAt: map[int]int64{}, stored: map[string]map[string]int64{}}
 
 	var raw []rueidisaside.CacheAsideClient
 	var get []getter
@@ -321,6 +323,37 @@ func history(run *mon.Run, name string, p params) (string, bool) {
 			wg.Wait()
 			synctest.Wait()
 		}
+	case "fresh":
+		// a client whose very first operations are concurrent Gets of different missing keys, with loaders that outlast
+		// ClientTTL several times; the other clients ask for the same keys in between and must wait for those loads
+		na := 2 + rng.Intn(3)
+		if na > len(keys) {
+			na = len(keys)
+		}
+		ttl := 20 * p.clientTTL
+		var wg sync.WaitGroup
+		for i := 0; i < na; i++ {
+			dur := time.Duration(2+rng.Intn(4))*p.clientTTL + time.Duration(rng.Intn(1000))*time.Millisecond
+			k := keys[i]
+			wg.Add(1)
+			go func() {
+				defer wg.Done()
+				doGet(0, k, ttl, mkLoader(0, dur, false, nil), 0, 0)
+			}()
+			for c := 1; c < p.clients; c++ {
+				if c == 1 || rng.Intn(2) == 0 {
+					delay := 100*time.Millisecond + time.Duration(rng.Int63n(int64(dur)))
+					wg.Add(1)
+					go func(c int) {
+						defer wg.Done()
+						time.Sleep(delay)
+						doGet(c, k, ttl, mkLoader(c, 50*time.Millisecond, false, nil), 1, 0)
+					}(c)
+				}
+			}
+		}
+		wg.Wait()
+		run.Observe("fresh_client_histories", 1)
 	case "death":
 		k := keys[0]
 		ttl := 2 * time.Minute // far beyond ClientTTL: only the liveness key can release the lock in time
@@ -363,6 +396,9 @@ func history(run *mon.Run, name string, p params) (string, bool) {
 		}
 		w.mu.Unlock()
 		killedAt := time.Now()
+		w.mu.Lock()
+		w.diedAt[0] = mon.Stamp()
+		w.mu.Unlock()
 		bound := time.Second
 		switch p.death {
 		case "close":
@@ -576,8 +612,16 @@ func (w *world) judge(log []fakeredis.Event) (loads int, contended bool) {
 			if strings.HasPrefix(ks.val, rueidisaside.PlaceholderPrefix) && it.who >= 0 && it.who != ks.lockOwner && it.note == "script" {
 				// a client releases another client's lock: only allowed when that client's liveness key was gone
 				run.Observe("locks_of_others_released", 1)
-				if !ks.idGoneSince {
-					run.Violation("live-holder-lock-released-by-other", w.cfg, map[string]any{"case": w.name, "key": it.key, "by": it.who, "owner": ks.lockOwner, "history": history(it.key, it.seq), "trace": w.trace})
+				died, everDied := w.diedAt[ks.lockOwner]
+				ownerAlive := !everDied || it.seq < died // as far as the driver knows: not closed, connections never dropped
+				switch {
+				case !ks.idGoneSince:
+					run.Violation("live-holder-lock-released-by-other", w.cfg+"|liveness-key-present", map[string]any{"case": w.name, "key": it.key, "by": it.who, "owner": ks.lockOwner, "history": history(it.key, it.seq), "trace": w.trace})
+				case ownerAlive:
+					// the liveness key the lock points to went away although its client is alive, connected and still loading
+					run.Violation("live-holder-lock-released-by-other", w.cfg+"|liveness-key-of-a-live-client-vanished", map[string]any{"case": w.name, "key": it.key, "by": it.who, "owner": ks.lockOwner, "lock_value": ks.val, "history": history(it.key, it.seq), "trace": w.trace})
+				default:
+					run.Observe("locks_of_dead_clients_released", 1)
 				}
 			}
 			ks.val, ks.loadsInEp, ks.lockOwner = "", 0, -1
@@ -656,7 +700,7 @@ func (w *world) judge(log []fakeredis.Event) (loads int, contended bool) {
 }
 
 func (w *world) cfgKind() string {
-	if strings.HasPrefix(w.cfg, "kind=herd") {
+	if strings.HasPrefix(w.cfg, "kind=herd") || strings.HasPrefix(w.cfg, "kind=fresh") {
 		return "herd"
 	}
 	return "death"
@@ -674,8 +718,8 @@ func TestC39(t *testing.T) {
 	run := mon.Start(t, "C39", "exploration",
 		"2-4 real rueidisaside clients (own rueidis client each; SET NX GET lock or Lua lock; plain or typed client; ClientTTL 2-10 s) on fakeredis, one history per synctest bubble: "+
 			"(herd) 3-6 rounds of 2-12 concurrent Gets over 1-3 keys with loaders taking 0-400 ms, a failing loader, Dels through a client (also racing with the loads), key expiry (ttl 2 s), values stored by the driver; "+
-			"(death) a holder whose loader blocks is closed / loses its connections for good / loses them once while 1-3 other clients wait, ttl 2 min. Oracles: no returned value carries the rueidisid: prefix; every returned value was produced by a loader for that key or stored by the driver; "+
-			"replay of the server log merged with the loader invocations: loader only while holding the lock, at most one invocation per (key, epoch between removals), a lock is only released by another client after its owner's liveness key was gone; "+
+			"(fresh) a never-used client starts 2-4 concurrent Gets of different missing keys whose loaders take 2-6x ClientTTL while other clients ask for the same keys; (death) a holder whose loader blocks is closed / loses its connections for good / loses them once while 1-3 other clients wait, ttl 2 min. Oracles: no returned value carries the rueidisid: prefix; every returned value was produced by a loader for that key or stored by the driver; "+
+			"replay of the server log merged with the loader invocations: loader only while holding the lock, at most one invocation per (key, epoch between removals), a lock is only released by another client after its owner's liveness key was gone, and never while the owner is alive as far as the driver knows (not closed, connections intact); "+
 			"Gets started at a quiescent point after Del do not return older values; after a holder's death the others complete with a loaded value within 1 s (close, blip) or ClientTTL+1 s (dead) of virtual time. "+
 			"A case is one history, non-trivial when some Get was served by another client's load (or a dead holder's lock was taken over)")
 	defer run.Finish()
@@ -692,11 +736,14 @@ func TestC39(t *testing.T) {
 			p.kind = "death"
 			p.death = []string{"close", "dead", "blip"}[rng.Intn(3)]
 		}
+		if p.kind == "herd" && rng.Intn(4) == 0 {
+			p.kind, p.keys, p.clientTTL = "fresh", 4, []time.Duration{2 * time.Second, 5 * time.Second}[rng.Intn(2)]
+		}
 		if only != "" && only != fmt.Sprintf("h%d", i) {
 			continue
 		}
 		oneHistory(run, t, i, p)
 	}
-	run.Require("gets_ok", "loader_invocations", "gets_served_by_another_clients_load", "rounds_with_concurrent_gets_for_one_key", "epochs_ended", "dels", "locks_of_others_released",
+	run.Require("fresh_client_histories", "gets_ok", "loader_invocations", "gets_served_by_another_clients_load", "rounds_with_concurrent_gets_for_one_key", "epochs_ended", "dels", "locks_of_others_released",
 		"lock_of_dead_holder_released_in_time", "holder_deaths_close", "holder_deaths_dead", "holder_deaths_blip", "gets_failed_loader", "gets_served_stored_value")
 }
